@@ -110,6 +110,10 @@ impl Analysis<Ar> for ConstFold {
     }
     fn modify(eg: &mut EGraph<Ar, Self>, i: Id) {
         if let Some(x) = *eg.analysis_data(i) {
+            // as the crate's own constant-propagation example does: nothing to add when the numeral is already there
+            if eg.enodes(i).iter().any(|n| matches!(n, Ar::Num(y) if *y == x)) {
+                return;
+            }
             let a = eg.add(Ar::Num(x));
             let ident = eg.mk_identity_applied_id(i);
             eg.union(&a, &ident);
